@@ -267,19 +267,7 @@ def run(ck):
                 ok = False
     ck.ob("R3", "vm_add_memory_page:check-before-insert", ok, VMPY,
           "the page is inserted without a dominating is_mpn_in_tab() test whose positive outcome refuses the mapping")
-    f = tu.func("is_mpn_in_tab")
-    cmps = []
-    for n in cast.walk(f.body):
-        if n.get("kind") == "BinaryOperator" and n.get("opcode") in (">=", "<=", "<", ">"):
-            cmps.append(cast.ctext(n).replace(" ", ""))
-    want1 = set(["mpn->ad>=mpn_a->ad+mpn_a->size", "mpn_a->ad+mpn_a->size<=mpn->ad"])
-    want2 = set(["mpn->ad+mpn->size<=mpn_a->ad", "mpn_a->ad>=mpn->ad+mpn->size"])
-    ok = any(c in want1 for c in cmps) and any(c in want2 for c in cmps)
-    ck.ob("R3", "is_mpn_in_tab:predicate", ok, VMC,
-          "overlap predicate is not the two-sided test (existing.start >= new.end -> disjoint; existing.end <= new.start -> disjoint): %s" % cmps)
-    loops = [n for n in cast.walk(f.body) if n.get("kind") == "ForStmt"]
-    ok = any(len(l.get("inner", [])) >= 3 and l["inner"][2] and "memory_pages_number" in cast.text_names(l["inner"][2]) for l in loops)
-    ck.ob("R3", "is_mpn_in_tab:all-pages", ok, VMC, "the overlap test does not visit every mapped page")
+    overlap_predicate_rules(ck, tu, "R3")
 
     # ------------------------------------------------------------------ R4
     for name in reads + writes:
@@ -447,3 +435,45 @@ def typed_access_bound_rules(ck, tu, RID):
               "the typed access through the page pointer is guarded by %s (as `sum + c < 0`): it must say offset + my_size/8 <= page size, "
               "i.e. c >= -1; with c = %s an access whose last byte lies one past the end of the page is performed (no fault, one byte beyond "
               "the host buffer)" % (seen[-2:], best[1] if best else "?"))
+
+
+def overlap_predicate_rules(ck, tu, RID):
+    """is_mpn_in_tab(new) answers "does the new page overlap a mapped one" for add_memory_page: it visits EVERY mapped page and
+    declares a pair disjoint exactly on  old.ad >= new.ad + new.size  or  old.ad + old.size <= new.ad  (half-open ranges).  Decided on
+    linear forms of the clang AST (locals expanded), either spelling / polarity of the two comparisons.  A lookup of the new page's
+    two end points only (both ends free) misses a new page that encloses a mapped one.  Shared with C48: the allocators rely on the
+    VM refusing an overlapping mapping."""
+    f = tu.func("is_mpn_in_tab")
+    ldefs = cast.local_defs(f)
+    forms = []
+    for n in cast.walk(f.body):
+        if n.get("kind") == "BinaryOperator" and n.get("opcode") in (">=", "<=", "<", ">"):
+            for pol in (True, False):
+                lr = cast.c_less_than(n, pol, ldefs)
+                if lr is None:
+                    continue
+                (lt, lc), (rt, rc) = lr
+                d = dict(lt)
+                for k_, v_ in rt:
+                    d[k_] = d.get(k_, 0) - v_
+                forms.append((frozenset((k_, v_) for k_, v_ in d.items() if v_), lc - rc))
+
+    def has(new_end_le_old_start):
+        for d, c in forms:
+            dd = dict(d)
+            pos = sorted(k_ for k_, v_ in dd.items() if v_ == 1)
+            neg = sorted(k_ for k_, v_ in dd.items() if v_ == -1)
+            if c != -1 or len(pos) != 2 or len(neg) != 1:
+                continue
+            a_side = [k_ for k_ in pos if "mpn_a" in k_]
+            if new_end_le_old_start and len(a_side) == 2 and "mpn_a" not in neg[0] and neg[0].endswith("->ad"):
+                return True          # new.ad + new.size <= old.ad
+            if not new_end_le_old_start and len(a_side) == 0 and "mpn_a" in neg[0] and neg[0].endswith("->ad"):
+                return True          # old.ad + old.size <= new.ad
+        return False
+    ok = has(True) and has(False)
+    ck.ob(RID, "is_mpn_in_tab:predicate", ok, VMC,
+          "overlap predicate is not the two-sided test (existing.start >= new.end -> disjoint; existing.end <= new.start -> disjoint)")
+    loops = [n for n in cast.walk(f.body) if n.get("kind") in ("ForStmt", "WhileStmt")]
+    ok = any("memory_pages_number" in cast.text_names(l) for l in loops)
+    ck.ob(RID, "is_mpn_in_tab:all-pages", ok, VMC, "the overlap test does not visit every mapped page")
